@@ -17,8 +17,8 @@ REPL = [chunk(0xaa), ["P", chunk(0xbb), chunk(0xcc)], ["Z", 0]]
 RULE = ("(a) tree level, against the heap model: random trees x {setter(g, expand)(v), summarize_into(g)(), "
         "rebind_right(v)} with roots cached beforehand or not: sibling identity (`is`) along the path, hashes "
         "performed by the operation, by the next merkle_root(), by a second one; (b) view level, model-free: mutable "
-        "types x values x single mutations: every node of the new backing that is not on a changed path is the same "
-        "object as before, the next hash_tree_root() performs <= 2*depth+3+|new value| hashes, a second one / a copy's "
+        "types x values x (a few mutations, then) one mutation: walking old and new backing in parallel, every subtree "
+        "off the paths to the changed chunk / field / length is the same object (`is`) as before, the next hash_tree_root() performs <= 2*depth+3+|new value| hashes, a second one / a copy's "
         "/ a re-created view's performs none; non-trivial = path length >= 2")
 
 
@@ -64,7 +64,7 @@ def gen_inputs(ctx):
     m = 500 if ctx.thorough else 120
     for i in range(m):
         t = MUTABLE_TOP[i % len(MUTABLE_TOP)]
-        h = gen_history(rng, t, 1, top_only=True)
+        h = gen_history(rng, t, 1 if i % 3 == 0 else rng.randrange(2, 8), top_only=True)
         if h["cmds"]:
             h["kind"] = "view"
             yield h
@@ -141,16 +141,71 @@ def view_depth(t):
     return 1
 
 
+def changed_positions(t, x, cmd):
+    """gindices (in the backing of the top view x of type t, BEFORE the command) of the positions command cmd may
+    change; None = everything (union change)"""
+    k, op = t[0], cmd[0]
+    if k == "union":
+        return None
+    ln = len(x) if k in ("vec", "list", "bitvec", "bitlist") else 0
+    if k in ("vec", "list"):
+        per = 32 // bsize(t[1]) if is_basic(t[1]) else 1
+        cc = (t[2] + per - 1) // per
+    elif k in ("bitvec", "bitlist"):
+        per, cc = 256, (t[1] + 255) // 256
+    else:
+        per, cc = 1, len(t[1])
+    cd = get_depth(cc)
+    base = (2 << cd) if k in ("list", "bitlist") else (1 << cd)
+    if op in ("set", "bitset"):
+        i = cmd[2]
+        return [base + (i if i >= 0 else i + ln) // per] if k != "cont" else [base + i]
+    if op == "append":
+        return [base + ln // per, 3]
+    if op == "pop":
+        return [base + (ln - 1) // per, 3]
+    return []
+
+
+def sharing_violation(old, new, changed):
+    """model-free: every subtree of `new` that is not on a path to a changed position must be the very same node
+    object as in `old` (or, where `old` had a zero summary that the path expanded, a childless zero node)"""
+    def on_path(g):
+        return any(c >> (c.bit_length() - g.bit_length()) == g for c in changed if c.bit_length() >= g.bit_length())
+
+    def walk(o, n, g):
+        if g in changed:
+            return None
+        if not on_path(g):
+            if o is not None and n is not o:
+                return "the subtree at gindex %d, off every changed path, is not the same node object as before" % g
+            if o is None and not n.is_leaf():
+                return "a fresh subtree was allocated at gindex %d, off every changed path" % g
+            return None
+        if n.is_leaf():
+            return None
+        oc = (None, None) if (o is None or o.is_leaf()) else (o.get_left(), o.get_right())
+        return walk(oc[0], n.get_left(), 2 * g) or walk(oc[1], n.get_right(), 2 * g + 1)
+    return walk(old, new, 1)
+
+
 def build_view_case(inp):
-    t, v, cmd = inp["t"], inp["v"], inp["cmds"][0]
+    t, v, cmds = inp["t"], inp["v"], inp["cmds"]
     x = to_py(t, v)
+    sh = Shadow(t, v)
+    sh.views[0] = x
+    for pre in cmds[:-1]:           # a few earlier mutations first: the checked one then starts from a worked-on tree
+        attempt(lambda: sh.run(pre), anyerr=True)
+    cmd = cmds[-1]
     x.hash_tree_root()
     old = {}
     reachable(x.get_backing(), old)
-    sh = Shadow(t, v)
-    sh.views[0] = x
+    old_backing = x.get_backing()
+    chg = attempt(lambda: changed_positions(t, x, cmd), anyerr=True)
     r = attempt(lambda: sh.run(cmd), anyerr=True)
     why = None
+    if not isinstance(r, E) and not isinstance(chg, E) and chg is not None:
+        why = sharing_violation(old_backing, x.get_backing(), chg)
     new = {}
     reachable(x.get_backing(), new)
     fresh = [n for k, n in new.items() if k not in old]
@@ -159,7 +214,7 @@ def build_view_case(inp):
     # nodes of a newly inserted composite value are new by necessity: bound them by the value's own tree size
     arg_nodes = 0
     if cmd[0] in ("set", "append", "change") and not isinstance(r, E):
-        et = elem_for(Shadow(t, v), cmd)
+        et = elem_for(sh, cmd)
         a = cmd[-1]
         if et is not None and a[0] == "val" and not is_basic(et):
             tmp = {}
